@@ -8,6 +8,7 @@ St2 == <<[g \in Inst |-> B(g \in alive')], [g \in Inst |-> B(pend'[g])]>>
 MCNext == \E g \in Inst :
             \/ NextU32(g) /\ PrintT(<<"J", St, "next_u32", g, 0, St2>>)
             \/ NextU64(g) /\ PrintT(<<"J", St, "next_u64", g, 0, St2>>)
+            \/ SetRounds(g) /\ PrintT(<<"J", St, "set_rounds", g, 0, St2>>)
             \/ \E n \in FillLens : Fill(g, n) /\ PrintT(<<"J", St, "fill_bytes", g, n, St2>>)
             \/ \E h \in Inst : Clone(g, h) /\ PrintT(<<"J", St, "clone", g, h, St2>>)
             \/ \E h \in Inst : CloneFrom(g, h) /\ PrintT(<<"J", St, "clone_from", g, h, St2>>)
